@@ -26,6 +26,20 @@ checks.update({
    text="3k (quick) / 200k (thorough) byte-coded call programs over 44 callees (functions, value/pointer methods, generics, generic-type methods, closures, same-package adjacency) in packages with dotted/dashed//v2/deep import paths: two Incs from one stack hit one counter; stacks differing in any frame's (symbol,file,line,offset) get different untruncated names; length <= 4096 at every truncation alignment; marker => uncompressed > 4096, no marker => all frames present; each decoded line = the frame's full symbol + well-formed location; Parse/ReadStack return expanded names; DecodeStack/IsStackCounter on 20k/1M generated strings under a tick budget; concurrent Inc under -race keeps counts.",
    note="Frames cannot be synthesised for runtime.CallersFrames, so reach is what the generated call programs produce. Distinctness is judged at the granularity the runtime can symbolise (two instantiations of one generic function are one 'stack').", ref="§2 C15"),
 })
+checks.update({
+ "C01": dict(cat="exploration", tech="runtime monitoring of requests at a local upload server: reference filter as differential oracle, forced X through the instrumented crypto/rand call, canary scan of raw request bytes",
+   text="1.6k (quick) / 48k (thorough) generated histories: configurations (program/version/Go-version subsets, bucketed counters, stacks, rates {0,.25,.5,1}, sample rates), counter files with approved names, every near-miss class (prefix/suffix/bucket/brace/case near-misses, plain counters named like approved stacks and vice versa) and canary-carrying private names, X forced at/above/below rates; 1-3 runs per history in one process with changing configs-in-force. Every request body must equal reference filter(aggregate, config, X) and the recorded report bytes; raw request bytes are scanned for canaries.",
+   note="The config is handed to the uploader struct directly (module-proxy download not exercised); names are valid UTF-8, values < 2^62.", ref="§2 C01"),
+ "C02": dict(cat="exploration", tech="runtime monitoring of requests and directory snapshots over generated mode/date histories; reference consent predicate as oracle",
+   text="Same histories with mode files on/local/off/missing/malformed, opt-in dates placed on and around the data's begin dates (incl. two files of one week in both name orders), ends around the 21-day limit and the start instant, sample rates and forced X: requests iff the mode file reads exactly 'on' and the documented uploadable/sent predicates hold; mode off changes no counter file or report; SetModeAsOf/Mode round trip over 27 time zones and day boundaries, invalid modes rejected with the file byte-identical, arbitrary contents read as documented.",
+   note="Start times are passed explicitly (virtual calendar 2019-2031); the counter API's own mode-off behaviour is covered by C16/C19 process-level checks.", ref="§2 C02"),
+ "C07": dict(cat="exploration", tech="runtime monitoring: directory snapshots + reference aggregator (sequential histories); token-passing schedule fuzzer over fs calls with an fs-event-log checker (concurrent uploaders)",
+   text="Sequential: generated directories (ok/empty/garbage/truncated/bad-metadata files, ends at/around the start instant, several files per build and week, pre-existing reports, a file growing between runs) through 1-3 runs in one process: exactly one local report per eligible week equal to the reference sums, files removed only then, everything else byte-identical. Concurrent: 2-4 uploaders under the scheduler (yield at every fs/HTTP call), park-at-k/PCT/sticky/random, kills: no report created or replaced twice (event log), local reports never change and equal the reference sums, counter files removed only after a report exists.",
+   note="Three open known findings (F14 family) are reported by exact signature. Sequential consistency between scheduling points.", ref="§2 C07, §4"),
+ "C08": dict(cat="fault_enumeration", tech="runtime monitoring under a token-passing schedule fuzzer with kill points and a scripted server: offline checker over the server log and directory snapshots",
+   text="1.6k (quick) / 80k (thorough) histories: 2-4 uploaders x 1-3 rounds (later rounds hours to weeks later, start-time skew between uploaders, some anchored at the real clock) against a server answering each request 200/400/404/500/503/dropped, kills after any fs/HTTP call (park for ever: deferred cleanup never runs; incl. between ack and marker, while holding the lock). Checker: <=1 distinct acknowledged body per week and it is the complete reference report; no request while upload/<week>.json exists; only-5xx/unanswered weeks keep the report; 4xx removes it unmarked; crash-free histories acknowledge every uploadable week exactly once within rounds+1.",
+   note="Uploaders are virtual threads in one process; kill = never scheduled again. Liveness is bounded (rounds+1). Four open known findings (F8, F14) are reported by exact signature.", ref="§2 C08, §4"),
+})
 todo = {
 }
 names = ["C%02d" % i for i in range(1, 20)]
